@@ -612,6 +612,8 @@ def run_oracles(ctx, report, ad, gen, n_rot, param_seed):
         ctx.case({"model": ad.name, "oracle": "cutoff", "point": k, "rel_err": prof[k]}, sample_every=29)
     fails += O.o_degenerate(ad, gen)
     ctx.case({"model": ad.name, "oracle": "degenerate"}, sample_every=41)
+    fails += O.o_inplace_history(ad, gen)
+    ctx.case({"model": ad.name, "oracle": "inplace-history"}, sample_every=41)
     ctx.count("oracles:" + ad.family)
     for nm, info in fails:
         info["param_seed"] = param_seed
